@@ -528,6 +528,7 @@ func sortedValue(p *Prog, v ssa.Value, cfg *OrderCfg, depth int) string {
 		return ""
 	}
 	var sorter ssa.Instruction
+	sorterIsHelper := false
 	var others []ssa.Instruction
 	var handoff []*ssa.Call
 	for _, r := range *v.Referrers() {
@@ -559,6 +560,22 @@ func sortedValue(p *Prog, v ssa.Value, cfg *OrderCfg, depth int) string {
 						sorter = x
 					}
 					continue
+				}
+				// a helper that sorts this very argument in place before using it in any other way is a sort of v
+				// (sortPeers(peers)); its comparator is judged there
+				if depth < 3 && callee.Blocks != nil {
+					idx := -1
+					for i, a := range x.Call.Args {
+						if a == v {
+							idx = i
+						}
+					}
+					if idx >= 0 && idx < len(callee.Params) && sortsParamFirst(p, callee, idx, cfg, depth) {
+						if sorter == nil {
+							sorter, sorterIsHelper = x, true
+						}
+						continue
+					}
 				}
 				handoff = append(handoff, x)
 				continue
@@ -595,7 +612,7 @@ func sortedValue(p *Prog, v ssa.Value, cfg *OrderCfg, depth int) string {
 		}
 	}
 	if sorter != nil {
-		if k, ok := sorter.(*ssa.Call); ok {
+		if k, ok := sorter.(*ssa.Call); ok && !sorterIsHelper {
 			if v := CheckComparator(k, func(elem types.Type, path string) bool { return uniqueProjection(nil, cfg, elem, path) }); !v.Total {
 				return "sorted at " + p.Rel(k.Pos()) + ", but " + v.Why
 			}
@@ -724,4 +741,41 @@ func sortedValueSkipping(p *Prog, v ssa.Value, skip ssa.Instruction, cfg *OrderC
 	*v.Referrers() = kept
 	defer func() { *v.Referrers() = saved }()
 	return sortedValue(p, v, cfg, depth)
+}
+
+// sortsParamFirst: callee's parameter idx is sorted (by a recognised sorter with a total comparator) before any
+// other use inside callee, and callee does contain such a sort.
+func sortsParamFirst(p *Prog, callee *ssa.Function, idx int, cfg *OrderCfg, depth int) bool {
+	param := callee.Params[idx]
+	if !IsSliceType(param.Type()) {
+		return false
+	}
+	has := false
+	var scan func(v ssa.Value, d int)
+	scan = func(v ssa.Value, d int) {
+		if v.Referrers() == nil || d > 3 {
+			return
+		}
+		for _, r := range *v.Referrers() {
+			switch x := r.(type) {
+			case *ssa.Call:
+				if c := x.Call.StaticCallee(); c != nil && cfg.IsSorter(c) {
+					has = true
+				}
+			case *ssa.Store:
+				// spilled because the comparator closure captures it
+				if al, ok := x.Addr.(*ssa.Alloc); ok && x.Val == v && al.Referrers() != nil {
+					for _, r2 := range *al.Referrers() {
+						if ld, isLd := r2.(*ssa.UnOp); isLd {
+							scan(ld, d+1)
+						}
+					}
+				}
+			case *ssa.MakeInterface:
+				scan(x, d+1)
+			}
+		}
+	}
+	scan(param, 0)
+	return has && sortedValue(p, param, cfg, depth+1) == ""
 }
